@@ -175,6 +175,16 @@ func runIsolation(id int, c *isoCase) isoLine {
 					bb[20+5], bb[20+6], bb[20+7] = 0x00, 0xff, 0xff
 					conns[k].Feed(bb)
 					awaitReport()
+				case "toodeep": // grouped AVPs nested deeper than the decoder accepts (80 KB of Failed-AVP headers)
+					depth := 10050
+					body := make([]byte, 8*depth)
+					for d := 0; d < depth; d++ {
+						n := 8 * (depth - d)
+						copy(body[8*d:], []byte{0, 0, 1, 23, 0x40, byte(n >> 16), byte(n >> 8), byte(n)})
+					}
+					h := diam.Header{Version: 1, MessageLength: uint32(20 + len(body)), CommandFlags: 0x80, CommandCode: 272, ApplicationID: 4, HopByHopID: uint32(i), EndToEndID: uint32(i)}
+					conns[k].Feed(append(h.Serialize(), body...))
+					awaitReport()
 				case "eof":
 					conns[k].FeedErr(io.EOF)
 				case "eofmid":
